@@ -36,6 +36,18 @@ CHECKS.update({
    technique='deterministic simulation: seeded model-API call histories (insertion orders, repeated facts, negated literals) mirrored order-free into an independent reference semantics; differential evaluation of ~50 sentences per model at every world with innermost-clause localisation',
    text='Seeded histories of set-value / add-access calls from a hidden consistent ground truth, in all 57 logics; after finish() the access relation must be the required closure (serial superset for D), identity/existence completion must make identity an equivalence respected by every extension at every world, and value_of must equal R1 on sampled sentences (all operators, quantifiers, modal operators, opaques) at every world. Sampling of models, orders and sentences.',
    note='Trusts R1; a disagreement is localised to the innermost clause and adjudicated against doc/logics before being listed.'),
+ 'C09': dict(engine='proofsim', level='exploration', ref='DESIGN.md §6 C09',
+   technique='deterministic simulation: families of independently scheduled runs of one argument (8 lexical-hash salts in fresh interpreters x option combinations x drive modes x seeded tie-break orders x premise permutations/duplications), verdict classes compared within and across workers over the recorded history; drive modes compared under one schedule',
+   text='Each sampled (logic, argument) is proved under every lexical salt and, per salt, several configurations from {group optim} x {rank optim} x {build, step loop, stepiter} x tie-break seeds x premise orders/duplications. Alarm iff a family holds both a valid and a refuted outcome, a member raises, or the three drive modes differ under one schedule. Limit-only outcomes are excluded as stated.',
+   note='A valid/refuted pair cannot both be right, so the alarm is never spurious; R1 is used only to name the side and rule at fault.'),
+ 'C10': dict(engine='proofsim', level='exploration', ref='DESIGN.md §6 C10',
+   technique='deterministic simulation: families of independently scheduled runs of related arguments (conclusion-among-premises, added premise, injective renamings of letters/constants/predicates/bound variables), laws checked over the recorded outcomes',
+   text='For sampled base arguments in all logics (propositional, modal, first-order with identity): reflexivity (never refuted, valid when a verdict is reached), monotonicity (base valid => extended never refuted) and renaming invariance (never valid on one side and refuted on the other), each member under 2 independent seeded configurations.',
+   note='Limit-only outcomes never compared; R1 only attributes blame.'),
+ 'C11': dict(engine='proofsim', level='exploration', ref='DESIGN.md §6 C11',
+   technique='deterministic simulation: pairs of independently scheduled runs of one argument in a declared (weaker, stronger) logic pair read from the registry, floor share per declared pair plus sampled transitive pairs',
+   text='For every declared extension pair (98 at this commit, each with a floor share; transitive pairs sampled) arguments in the weaker logic\'s vocabulary are proved in both logics under independent seeded configurations; a valid verdict in the weaker logic forbids a limit-free refutation in the stronger one. R1 says which side is wrong.',
+   note='Arguments are sampled and biased to ones the weaker logic proves (mutated library examples).'),
 })
 
 NOT_APPLICABLE = {
